@@ -70,6 +70,10 @@ if fid == 'F-43':
     t1 = set_value(source=parse(w['doc']), npath=w['ops'][0][1], value=w['ops'][0][2])
     t2 = set_value(source=parse(t1), npath=w['ops'][1][1], value=w['ops'][1][2])
     out(t2 != t1, 'once %r twice %r' % (t1, t2))
+if fid == 'F-46':
+    g1 = ' '.join(set_value(source=parse(w['doc']), npath=w['path'][0], value=w['value']).split())
+    g2 = ' '.join(set_value(source=parse(w['second_doc']), npath=w['path'][0], value=w['value']).split())
+    out(g1 != w['expected'] or g2 != w['second_expected'], 'got %r / %r' % (g1, g2))
 if fid == 'F-37':
     text, errs, _ = apply_ops(w['doc'], w['ops'])
     out(errs == [None] and not text.lstrip().startswith('let'), 'emitted %r' % text)
